@@ -80,11 +80,15 @@ where
         // Rewind and truncate the file
         file.rewind().await?;
         file.set_len(0).await?;
+        #[cfg(sos_verif)]
+        sos_core::verif::probe("fs_vault::write_header::truncated");
 
         let mut guard = file.lock_write().await.map_err(|e| e.error)?;
 
         // Write out the header
         guard.write_all(&head).await?;
+        #[cfg(sos_verif)]
+        sos_core::verif::probe("fs_vault::write_header::head_written");
 
         // Write out the content
         guard.write_all(&content).await?;
@@ -126,6 +130,8 @@ where
         } else {
             unreachable!("file splice head range always starts at zero");
         }
+        #[cfg(sos_verif)]
+        sos_core::verif::probe("fs_vault::splice::truncated");
 
         // Must seek to the end before writing out the content or tail
         guard.seek(SeekFrom::End(0)).await?;
@@ -134,6 +140,8 @@ where
         if let Some(content) = content {
             guard.write_all(content).await?;
         }
+        #[cfg(sos_verif)]
+        sos_core::verif::probe("fs_vault::splice::content_written");
 
         // Write out the end portion
         guard.write_all(&end).await?;
